@@ -8,16 +8,28 @@ import os, sys
 sys.path.insert(0, os.path.dirname(os.path.abspath(__file__)))
 from vlib import guarded_main
 import gbcommon as G
+import gencommon as GC
 
 
 def main(c):
     if c.replay:
         return G.replay(c, "C39")
+    # the stage on real mfront-generated behaviours runs in a worker thread (preprocessing / compilation) while the mock stages run
+    wait_generated = GC.start_stage(c, "C39")
     exe, lines = G.run_driver(c)
-    if lines is None:
+    hlines = G.run_driver_h(c) if lines is not None else None
+    if lines is None or hlines is None:
+        wait_generated()
         return
     parsed = []
     findings = []
+    for l in hlines:
+        d, ch, ob = G.parse(l)
+        nontrivial = any(v[0] > 0 for v in ch.values()) or d["K0"] > 50000 or d["K0"] < 0
+        c.count(1, (d["fn"], d["hyp"], d["tr"], d["K0"], d["K1"], d["K2"], tuple(sorted(ch.items()))), nontrivial)
+        for f in G.spec_check_h(d, ch, ob):
+            findings.append(f + (d, l))
+    c.sample({"execution_other_hypothesis": hlines[len(hlines) // 2][:600]})
     for l in lines:
         d, ch, ob = G.parse(l)
         parsed.append((d, ch, ob, l))
@@ -40,8 +52,19 @@ def main(c):
             continue
         seen.add(k)
         c.report(k, w, {"line": l, "replay": G.replay_of(d) if d else {}}, True)
+    # execution of real generated behaviours (findings of the independent statement, lines for the model)
+    g = wait_generated()
+    glines = []
+    if g is not None:
+        glines, gfind, ginfo = g
+        c.notes.append("EXECUTION of mfront-generated behaviours through the generated extern \"C\" entry points: %s" % ginfo)
+        gseen = set()
+        for (p, k, w, l) in gfind:
+            if p == "C39" and k not in gseen:
+                gseen.add(k)
+                c.report(k, w, {"line": l, "how": "props/C39/gdriver.cxx on the behaviours generated from props/C39/mfront/*.in (gencommon.py)"}, True)
     # correspondence with the extracted model
-    bad, nok = G.correspondence(c, lines, v, "C39")
+    bad, nok = G.correspondence(c, lines + hlines + glines, v, "C39")
     if bad is None:
         return
     c.coverage["traces_validated_against_impl"] = nok
@@ -57,20 +80,26 @@ def main(c):
     files = G.model_sources(c, "C39") + [gen, "Properties_C39.v"]
     files.append("Properties_C39_prediction_refuted.v" if v["v_pred_raw"] else "Properties_C39_prediction.v")
     files.append("Properties_C39_wrappers_refuted.v" if (v["v_wrap_nonzero"] or v["v_wrap_raw"]) else "Properties_C39_wrappers.v")
+    files.append("Properties_C39_hypotheses.v")
     res = c.coq(files, timeout=900)
     if not res.ok:
         if c.violations and any(x[3] for x in c.violations):
             c.notes.append("proof obligations failed: %s; concrete failing inputs reported above" % [f[2] for f in res.failed])
         else:
             c.coq_failures(res)
-    c.trusted("driver props/C39/driver.cxx (mock behaviours, choice oracle, recognition of the images written in the output buffers by "
+    c.trusted("drivers props/C39/driver_h.cxx (other hypotheses, coarse images) and props/C39/gdriver.cxx + gencommon.py (generated behaviours: scripted "
+              "reference programs props/C39/mfront/*.in, /repo's mfront, g++)",
+              "driver props/C39/driver.cxx (mock behaviours, choice oracle, recognition of the images written in the output buffers by "
               "recomputing the candidate conversions with TFEL's own conversion functions)",
               "OCaml driver props/C39/driver.ml (parsing / printing of observations)",
               "the mock behaviour stands for every behaviour class: the templates only interact with the behaviour through the hooks scripted here")
     c.coverage["rule"] = ("exhaustive over hook outcomes: depth-first enumeration of every combination of outcomes (ok/fail/throw, time step "
                           "factors on both sides of 0.99) that the template consults, x traits {all, none, pred+cto, cto+ie, pred+de, ie+de} x "
                           "K[0] in {-3..4, 97..104, five non-integer codes} x policy {None, Warning, Strict} for integrate; x K[1] in {0,1,2,3} "
-                          "x K[2] in {0..4} for the three wrappers (3D); non-trivial = some hook fails or prediction/speed-of-sound request")
+                          "x K[2] in {0..4} for the three wrappers (3D); the three wrappers in PlaneStress, AxisymmetricalGeneralisedPlaneStress, "
+                          "Axisymmetrical (thorough: the six non-3D hypotheses, all K[1], K[2]) with and without declared axial variable (coarse images); "
+                          "EXECUTION (not exhaustive): generated behaviours C39GFull/Bare/Fixed/Log/GL, K[0] x K[1] x K[2] x policy sequences x single "
+                          "and some double hook faults; non-trivial = some hook fails or prediction/speed-of-sound request")
     c.coverage["exhaustive"] = True
 
 
